@@ -116,6 +116,9 @@ type drv struct {
 	buf      []pend
 	straddle bool
 	cleaned  bool
+	vclock     int // timed traces: the abstract clock the scenario is at (Ticks so far); the wall clock must agree
+	forceClean bool
+	cleanEvery int // the clean-up worker (more than a second per run) is run only in traces whose id is a multiple of this
 }
 
 func extra(s, key, def string) string {
@@ -139,7 +142,8 @@ func Run(a vc.Args) {
 	d.futureNonce = atoi(extra(a.Extra, "fn", "2"))
 	d.maxTx = atoi(extra(a.Extra, "maxtx", "3"))
 	timedEvery := atoi(extra(a.Extra, "timed", "0"))         // every k-th random trace is a timed one
-	timedBehaviours := atoi(extra(a.Extra, "timedbeh", "1")) // replay TLC behaviours that contain Tick as timed traces (1) or drop their Ticks (0)
+	timedBehaviours := atoi(extra(a.Extra, "timedbeh", "1000000")) // how many TLC behaviours that contain Tick are replayed as timed traces (the Ticks of the others are dropped)
+	d.cleanEvery = atoi(extra(a.Extra, "cleanevery", "1"))
 	// block cost limit: the generator's own payFees + maxTx transfers fit, one more transfer does not
 	// (no settings commit, challenge or reward round is reached: payFees is the only built-in transaction)
 	d.maxCost = costFees + d.maxTx*costSend + 1
@@ -168,26 +172,56 @@ func Run(a vc.Args) {
 	d.makeBase()
 
 	id := 0
-	for _, raw := range vc.Behaviours(a.Behav) {
+	// fixed scenarios that reach every class of behaviour whatever the seed
+	for k, ops := range d.scripted(extra(a.Extra, "scripted", "fast")) {
 		id++
 		if a.Only != 0 && a.Only != id {
 			rc.TraceID = id
 			continue
 		}
+		timed := false
+		for _, o := range ops {
+			timed = timed || o.Op == "Tick"
+		}
+		use := ops
+		d.forceClean = true
+		d.runTrace(id, rec.M{"family": "txnlife", "kind": "scripted", "id": id, "seed": a.Seed, "k": k, "ops": ops}, timed, func() func() (op, bool) {
+			i := 0
+			return func() (op, bool) {
+				if i >= len(use) {
+					return op{}, false
+				}
+				i++
+				return use[i-1], true
+			}
+		})
+		d.forceClean = false
+	}
+	for _, raw := range vc.Behaviours(a.Behav) {
+		id++
 		var ops []op
 		if err := json.Unmarshal(raw, &ops); err != nil {
 			rec.Fatal("behaviour %d: %v", id, err)
 		}
+		// behaviours with Tick run in real seconds; beyond the first `timedbeh` of them the Ticks are dropped
+		// (decided before the --only filter so that a trace re-executed alone is the same trace)
 		timed := false
 		var use []op
 		for _, o := range ops {
 			if o.Op == "Tick" {
-				if timedBehaviours == 0 {
+				if timedBehaviours <= 0 {
 					continue
 				}
 				timed = true
 			}
 			use = append(use, o)
+		}
+		if timed {
+			timedBehaviours--
+		}
+		if a.Only != 0 && a.Only != id {
+			rc.TraceID = id
+			continue
 		}
 		d.runTrace(id, rec.M{"family": "txnlife", "kind": "tlc", "id": id, "seed": a.Seed, "ops": ops}, timed, func() func() (op, bool) {
 			i := 0
@@ -422,6 +456,7 @@ func (d *drv) resetTrace(id int, timed bool) rec.M {
 	d.buf = nil
 	d.straddle = false
 	d.cleaned = false
+	d.vclock = 0
 	d.timed = timed
 	margin := 0
 	if timed {
@@ -467,6 +502,10 @@ func (d *drv) runTrace(id int, scenario rec.M, timed bool, mkSrc func() func() (
 }
 
 func (d *drv) exec(o op) {
+	if d.timed && d.now() != d.vclock {
+		d.straddle = true // the wall clock moved on without a Tick of the scenario (slow machine): start the trace again
+		return
+	}
 	switch o.Op {
 	case "Submit":
 		d.submit(*o.T)
@@ -491,11 +530,16 @@ func (d *drv) exec(o op) {
 			d.skip(o, "no block "+o.B)
 		}
 	case "Cleanup":
-		d.cleanup()
+		if d.tid%d.cleanEvery == 0 || d.forceClean {
+			d.cleanup()
+		} else {
+			d.skip(o, "no clean-up run in this trace")
+		}
 	case "Tick":
 		if d.timed {
 			d.waitNextSecond()
-			d.emit(rec.M{"ev": "Tick", "now": d.now()}, "tick", false)
+			d.vclock++
+			d.emit(rec.M{"ev": "Tick", "now": d.vclock}, "tick", false)
 		} else {
 			d.skip(o, "fast trace")
 		}
@@ -674,6 +718,7 @@ func (d *drv) gen(p string) {
 	d.prepareRound(parent)
 	mr := mc.GetMinerRound(parent.Round + 1)
 	mc.SetupStateCache()
+	before := d.pool()
 	var b *block.Block
 	var gerr error
 	now := d.clocked(func() {
@@ -684,6 +729,14 @@ func (d *drv) gen(p string) {
 	// the asynchronous deletion of the transactions the generator found invalid (go mc.deleteTxns): let it settle
 	time.Sleep(25 * time.Millisecond)
 	pv := d.pool()
+	for i := 0; i < 50; i++ {
+		time.Sleep(8 * time.Millisecond)
+		again := d.pool()
+		if fmt.Sprint(again) == fmt.Sprint(pv) {
+			break
+		}
+		pv = again
+	}
 	if gerr != nil || b == nil {
 		d.emit(rec.M{"ev": "Gen", "p": p, "b": "", "live": live, "now": now, "bt": 0, "gen_err": "failed:" + errClass(gerr), "txns": []rec.M{},
 			"cost": 0, "maxcost": d.maxCost, "accepted": false, "ver_err": "", "roots_equal": false, "pool": pv.Coll, "ents": pv.Ents}, "generr", false)
@@ -701,13 +754,21 @@ func (d *drv) gen(p string) {
 	if wire.IsStateComputed() && wire.ClientState != nil {
 		verRoot = util.ToHex(wire.ClientState.GetRoot())
 	}
+	// reach markers: the generator deleted pool members / filled the block while more were waiting
+	marks := ""
+	if len(pv.Coll) < len(before.Coll) {
+		marks += "/del"
+	}
+	if npool := len(txns) - 1; npool >= d.maxTx && len(before.Coll) > npool {
+		marks += "/full"
+	}
 	if d.debug {
 		fmt.Fprintf(os.Stderr, "DEBUG %d Gen on %s -> %s bt=%d txns=%v verr=%v pool=%v\n", d.tid, p, name, d.btOf[name], txns, verr, pv.Coll)
 	}
 	d.emit(rec.M{"ev": "Gen", "p": p, "b": name, "live": live, "now": now, "bt": d.btOf[name], "gen_err": "", "txns": txns,
 		"cost": cost, "maxcost": d.maxCost,
 		"accepted": verr == nil, "ver_err": errClass(verr), "roots_equal": verRoot == util.ToHex(b.ClientStateHash),
-		"pool": pv.Coll, "ents": pv.Ents}, strings.Join(shape, "+")+fmt.Sprintf("/%v", verr == nil), len(b.Txns) > 1)
+		"pool": pv.Coll, "ents": pv.Ents}, strings.Join(shape, "+")+fmt.Sprintf("/%v", verr == nil)+marks, len(b.Txns) > 1)
 }
 
 // forge builds a block of another generator (m3) on parent p that carries the given transactions in the given
@@ -778,6 +839,7 @@ func (d *drv) fin(bn string) {
 	b := d.blocks[bn]
 	child := d.parent[bn] == d.lfb
 	d.setSelf(0)
+	before := d.pool()
 	mc.Chain.SetLatestFinalizedBlock(b)
 	d.lfb = bn
 	ctx, done := d.mw.Ctx()
@@ -787,7 +849,7 @@ func (d *drv) fin(bn string) {
 	pv := d.pool()
 	own := b.MinerID == d.mw.Miners[0].ID
 	d.emit(rec.M{"ev": "Fin", "b": bn, "own": own, "child_of_lfb": child, "now": d.now(), "err": errClass(err), "pool": pv.Coll, "ents": pv.Ents},
-		fmt.Sprintf("own=%v", own), true)
+		fmt.Sprintf("own=%v/removed=%d", own, len(before.Coll)-len(pv.Coll)), true)
 }
 
 // cleanup runs the real CleanupWorker until it has made (at least) one pass: the worker ticks once a second.
@@ -820,12 +882,60 @@ func (d *drv) cleanup() {
 		time.Sleep(1200 * time.Millisecond)
 	}
 	passAt := d.now()
+	d.vclock = passAt
 	cancel()
 	<-doneC
 	pv := d.pool()
 	d.cleaned = true
 	d.emit(rec.M{"ev": "Cleanup", "now": passAt, "pool": pv.Coll, "ents": pv.Ents},
 		fmt.Sprintf("removed=%v", len(pv.Coll) != len(before.Coll)), len(pv.Coll) != len(before.Coll))
+}
+
+// ---------------------------------------------------------------- fixed scenarios
+
+func tx(id int, s string, n int64, ct, f int, k string) *atx { return &atx{ID: id, S: s, N: n, CT: ct, F: f, K: k} }
+
+func (d *drv) scripted(which string) [][]op {
+	if which == "none" {
+		return nil
+	}
+	T := d.tol
+	sub := func(t *atx) op { return op{Op: "Submit", T: t} }
+	inj := func(t *atx) op { return op{Op: "Inject", T: t} }
+	out := [][]op{
+		// never after it expired, by the BLOCK's time: a foreign block whose generator's clock runs ahead moves the branch's time
+		// forward; the transaction waiting in the pool is stale for the next block although the wall clock has not moved: the
+		// generator drops it; one created later is still taken
+		{sub(tx(1, "c1", 1, 0, 50, "ok")), {Op: "Forge", P: "b0", BT: T + 1, X: []atx{*tx(2, "c2", 1, T+1, 40, "ok")}}, {Op: "Gen", P: "b1"},
+			sub(tx(3, "c1", 1, 1, 30, "ok")), {Op: "Gen", P: "b1"}, {Op: "Gen", P: "b0"}},
+		// expiry: a stale and a future-dated transaction are in the pool; the clean-up worker drops them; the rest is generated
+		{inj(tx(1, "c1", 1, -T-1, 50, "ok")), sub(tx(2, "c1", 1, 0, 40, "ok")), inj(tx(3, "c2", 1, T+1, 30, "ok")), {Op: "Cleanup"}, {Op: "Gen", P: "b0"}},
+		// generation: stale and underpaid members are deleted, a future nonce is parked and promoted, a competing nonce is past,
+		// the cost limit stops the block; the node's own final block leaves the competing transaction in the pool
+		{inj(tx(8, "c2", 1, -T-1, 80, "ok")), inj(tx(7, "c2", 1, 0, 70, "lowfee")), sub(tx(1, "c1", 2, 0, 60, "ok")), sub(tx(2, "c1", 1, 0, 50, "ok")),
+			sub(tx(3, "c1", 1, 0, 40, "ok")), sub(tx(4, "c2", 1, 0, 30, "ok")), sub(tx(5, "c2", 2, 0, 20, "ok")), sub(tx(6, "c2", 2, 0, 10, "ok")),
+			{Op: "Gen", P: "b0"}, {Op: "Fin", B: "b1"}, {Op: "Gen", P: "b1"}, {Op: "Fin", B: "b2"}},
+		// a foreign block becomes final: its transaction and the competing one leave the pool; replay, gap, expired, altered
+		// transactions inside later foreign blocks are refused
+		{sub(tx(1, "c1", 1, 0, 50, "ok")), sub(tx(2, "c1", 1, 0, 40, "ok")), sub(tx(3, "c1", 2, 0, 30, "ok")),
+			{Op: "Forge", P: "b0", BT: 0, X: []atx{*tx(1, "c1", 1, 0, 50, "ok")}}, {Op: "Fin", B: "b1"}, {Op: "Gen", P: "b1"},
+			{Op: "Forge", P: "b2", BT: 0, X: []atx{*tx(1, "c1", 1, 0, 50, "ok")}},
+			{Op: "Forge", P: "b2", BT: 0, X: []atx{*tx(4, "c1", 4, 0, 31, "ok")}},
+			{Op: "Forge", P: "b2", BT: T + 1, X: []atx{*tx(5, "c1", 3, 0, 32, "ok")}},
+			{Op: "Forge", P: "b2", BT: T, X: []atx{*tx(5, "c1", 3, 0, 32, "ok")}},
+			{Op: "Forge", P: "b2", BT: 0, X: []atx{*tx(6, "c1", 3, 0, 33, "tamper")}},
+			{Op: "Forge", P: "b2", BT: 0, X: []atx{*tx(7, "c1", 3, 0, 34, "badsig")}},
+			{Op: "Gen", P: "b3"}},
+		// a nonce too far ahead of the state is deleted by the generator; the intake handler refuses it
+		{sub(tx(1, "c1", int64(d.futureNonce)+1, 0, 50, "ok")), inj(tx(2, "c1", int64(d.futureNonce)+2, 0, 40, "ok")), {Op: "Gen", P: "b0"},
+			inj(tx(3, "c1", 2, 0, 30, "ok")), inj(tx(4, "c1", int64(d.futureNonce)+2, 0, 20, "ok")), {Op: "Gen", P: "b0"}},
+	}
+	if which == "all" {
+		// real seconds: admitted, time passes, the generator finds it stale and deletes it; another one is dropped by the clean-up worker
+		out = append(out, []op{sub(tx(1, "c1", 1, 0, 50, "ok")), {Op: "Tick"}, sub(tx(2, "c2", 1, 1, 40, "ok")), {Op: "Tick"}, {Op: "Tick"}, {Op: "Gen", P: "b0"},
+			{Op: "Cleanup"}, {Op: "Gen", P: "b1"}})
+	}
+	return out
 }
 
 // ---------------------------------------------------------------- random histories
@@ -918,7 +1028,12 @@ func (d *drv) randomOp(r *rand.Rand) op {
 	if d.timed {
 		wTick = 18
 	}
-	if d.cleaned {
+	for _, id := range d.pool().Coll {
+		if a := d.now() - d.attrs[id].CT; id > 0 && (a > d.tol || -a > d.tol) {
+			wClean = 10
+		}
+	}
+	if d.cleaned || d.tid%d.cleanEvery != 0 {
 		wClean = 0
 	}
 	switch pick(r, 34, 5, 9, 20, 16, 12, wClean, wTick) {
@@ -939,6 +1054,9 @@ func (d *drv) randomOp(r *rand.Rand) op {
 		}
 		if r.Intn(6) == 0 {
 			t.N += int64(d.futureNonce) + 1
+		}
+		if !d.timed && r.Intn(5) == 0 {
+			t.CT = d.now() - d.tol - 1 - r.Intn(2)
 		}
 		return op{Op: "Inject", T: &t}
 	case 3:
@@ -1005,7 +1123,19 @@ func (d *drv) randomForge(r *rand.Rand, p string) op {
 	for i := 0; i < n; i++ {
 		add(next())
 	}
-	switch pick(r, 34, 14, 10, 8, 12, 5, 10, 7) {
+	switch pick(r, 28, 14, 10, 8, 12, 5, 10, 7, 10) {
+	case 8: // a valid block of a generator whose clock runs ahead: the branch's block time moves forward
+		if !d.timed {
+			bt += 1 + r.Intn(d.tol+1)
+			for i := range xs {
+				if _, known := d.attrs[xs[i].ID]; known {
+					xs[i].ID = fresh
+					xs[i].F = r.Intn(400)*64 + fresh%64
+					fresh++
+				}
+				xs[i].CT = bt - r.Intn(2)
+			}
+		}
 	case 0: // valid
 	case 1: // replay: a transaction that is already on the branch
 		if len(d.branch[p]) > 0 {
